@@ -43,6 +43,15 @@ def cases(tier, seed):
                 continue
             nt = op.kind in ('OMoveObject', 'OMoveProperty', 'ORenameObject', 'ORenameProperty', 'OSetObject', 'OSetProperty')
             out.append(mk([start, op], k, nt))
+    # the same names on both axes (legal for a Definition): every single step on every such table
+    shared = dm.all_tables([0, 1], [0, 1])
+    ops_shared = dm.single_ops(0, [0, 1, 3], [0, 1, 3])
+    for t in shared:
+        if t[0] and t[1]:
+            start = dm.Op('DNew', *t)
+            for op in ops_shared:
+                k += 1
+                out.append(mk([start, op], k, True))
     npairs = 1500 if tier == 'quick' else 8000
     for _ in range(npairs):
         a, b = r.choice(tables), r.choice(tables)
@@ -50,7 +59,10 @@ def cases(tier, seed):
         out.append(mk([dm.Op('DNew', *a), dm.Op('DNew', *b), op], r.randrange(2), True))
     n, length = (400, 25) if tier == 'quick' else (6000, 40)
     for i in range(n):
-        ops = dm.random_history(r, [0, 1, 2, 6], [3, 4, 5, 7], r.randint(3, length))
+        if i % 5 == 4:
+            ops = dm.random_history(r, [0, 1, 2, 6], [0, 1, 5, 7], r.randint(3, length))     # names shared between the axes
+        else:
+            ops = dm.random_history(r, [0, 1, 2, 6], [3, 4, 5, 7], r.randint(3, length))
         kinds = [o.kind for o in ops]
         nt = any(k.startswith('ORemove') or k.startswith('ORename') for k in kinds[:-1])
         out.append(mk(ops, i, nt))
